@@ -14,7 +14,7 @@ from opsdrive import dec, enc, nested, face_shape, trans_shape, SIDES, sur_sin
 KINDS = ["dirichlet", "noflux", "periodic"]
 
 
-def gen(rng, cls, nmax=3, **kw):
+def gen(rng, cls, nmax=3, closed=False, **kw):
     cfg = opsdrive.gen_config(rng, cls, nmax=nmax, allow_periodic=False)
     d = drive.dim(cls)
     faces = [[dec(q) for q in f] for f in cfg["faces"]]
@@ -29,7 +29,7 @@ def gen(rng, cls, nmax=3, **kw):
             kinds[SIDES[a][0]] = kinds[SIDES[a][1]] = "periodic"
         else:
             for s in SIDES[a]:
-                kinds[s] = rng.choice(["dirichlet", "noflux"])
+                kinds[s] = "noflux" if closed else rng.choice(["dirichlet", "noflux"])
     # a face at r = 0 (or at a pole of the surrogate sphere) carries no flux: treat like a wall
     wall = {s: kinds[s] == "noflux" for s in kinds}
     if faces[0][0] == 0 and drive.AXIS_LABELS[cls][0] == "r":
@@ -122,9 +122,24 @@ def gen(rng, cls, nmax=3, **kw):
                          "c": nested(shp, lambda ix: enc(0)), "periodic": k == "periodic"}
             bc[s]["kind"] = k
     cfg["bc"] = bc
-    cfg["D"] = [nested(face_shape(dims, a), lambda ix: enc(rng.choice([0, 1, 3, 1000]))) for a in range(d)]
+    Dn = [nested(face_shape(dims, a), lambda ix: enc(rng.choice([0, 1, 3, 1000]))) for a in range(d)]
+    for a in range(d):        # one physical face = one coefficient: face N repeats face 0 on periodic axes
+        if kinds[SIDES[a][0]] == "periodic":
+            for ix in itertools.product(*[range(n) for n in face_shape(dims, a)]):
+                if ix[a] == dims[a]:
+                    src = list(ix); src[a] = 0
+                    t = Dn[a]; q = Dn[a]
+                    for k in src[:-1]:
+                        q = q[k]
+                    val = q[src[-1]]
+                    for k in ix[:-1]:
+                        t = t[k]
+                    t[ix[-1]] = val
+    cfg["D"] = Dn
     cfg["beta"] = nested(dims, lambda ix: enc(rng.choice([0, 0, 1, 2])))
     cfg["phi"] = nested(full, lambda ix: enc(rng.choice([0, 1, 2, 3])))
+    cfg["closed_system"] = bool(closed)
+    cfg["const"] = enc(rng.choice([-2, 1, 3]))
     return cfg
 
 
@@ -160,5 +175,47 @@ def observe(cfg, want):
                 fp = lambda x: int(round(float(x) * 1e6)) if np.isfinite(x) and abs(x) < 2000 else 0
                 steps.append({"dt_exp": k, "finite": fin, "lo": fp(lo), "hi": fp(hi),
                               "mn": fp(new.min()) if fin else 0, "mx": fp(new.max()) if fin else 0})
+        # C06: a uniform field with matching boundary values is a steady state for every dt, alpha
+        cval = float(dec(cfg["const"]))
+        bcj = {s: dict(v) for s, v in cfg["bc"].items()}
+        for s in bcj:
+            if bcj[s]["kind"] == "dirichlet":
+                bcj[s]["c"] = opsdrive._map(bcj[s]["c"], lambda q: enc(dec(cfg["const"])))
+        steady = {}
+        for name, conv in (("central", P.convectionTerm), ("upwind", P.convectionUpwindTerm)):
+            v = P.CellVariable(c.m, cval, opsdrive.make_bc(c.m, bcj, d))
+            FL = P.fluxLimiter("SUPERBEE")
+            terms = [P.transientTerm(v, float(dec(cfg["dt"])), P.CellVariable(c.m, opsdrive.to_float_array(cfg["alpha"]))),
+                     -P.diffusionTerm(c.D), conv(c.u)]
+            if name == "upwind":
+                terms.append(P.convectionTVDupwindRHSTerm(c.u, v, FL))
+            P.solvePDE(v, terms)
+            steady[name] = lift.lift_array(np.asarray(v.value), tol=1e-9, qmax=20000)[0]
+        obs["steady"] = steady
+        # C01: closed system (no-flux walls with zero normal velocity / periodic): domainIntegral is invariant
+        if cfg.get("closed_system"):
+            import math
+            e = {"CylindricalGrid1D": 1, "SphericalGrid1D": 1, "CylindricalGrid2D": 1, "SphericalGrid3D": -1}.get(cfg["cls"], 0)
+            integ = {}
+            periodic_any = any(v["periodic"] for v in cfg["bc"].values())
+            for name in ("implicit_central", "implicit_upwind", "explicit"):
+                v = P.CellVariable(c.m, interior_ints(cfg, c), opsdrive.make_bc(c.m, cfg["bc"], d))
+                seq = [v.domainIntegral()]
+                for it in range(3):
+                    if name == "explicit":
+                        rhs = P.divergenceTerm(c.D * P.gradientTerm(v)) - P.divergenceTerm(c.u * P.linearMean(v))
+                        v = P.solveExplicitPDE(v, 0.001, rhs)
+                    else:
+                        conv = P.convectionTerm(c.u) if name == "implicit_central" else P.convectionUpwindTerm(c.u)
+                        P.solvePDE(v, [P.transientTerm(v, 0.5, 1.0), -P.diffusionTerm(c.D), conv])
+                    seq.append(v.domainIntegral())
+                integ[name] = [lift.lift_enc(x / math.pi ** e, tol=1e-10) for x in seq]
+            obs["integrals"] = integ
+            obs["periodic_any"] = periodic_any
     obs["steps"] = steps
     return obs
+
+
+def interior_ints(cfg, c):
+    np = drive.np()
+    return opsdrive.interior(opsdrive.to_float_array(cfg["phi"])).copy()
